@@ -2,6 +2,7 @@ package gowp
 
 import (
 	"fmt"
+	"os"
 	"path/filepath"
 	"regexp"
 	"strconv"
@@ -22,6 +23,10 @@ var reBounded = regexp.MustCompile(`VERIF-BOUNDED cases=(\d+) failed=(\d+) bound
 func init() {
 	RunBounded = func(e *Engine, opt Options, id, name string) (BoundedCheck, []string) {
 		file := filepath.Join(opt.VerifDir, "bounded", id+"_"+name+"_test.go")
+		if _, err := os.Stat(file); err != nil {
+			// shared between properties
+			file = filepath.Join(opt.VerifDir, "bounded", name+"_test.go")
+		}
 		out, err := RunReplayFile(opt.RepoDir, file)
 		bc := BoundedCheck{Function: name, Bound: "?"}
 		m := reBounded.FindStringSubmatch(out)
